@@ -8,6 +8,7 @@
 //!   Y <pkt> <off> <val|*> ; V .. ; O ..  the session with byte <off> of packet <pkt> replaced by <val>
 //!                                        (`*`: all 256 values, one fresh receiver pair per value)
 //!   S <pkt|all> <len> ; V .. ; O ..      the session with the symbol of one / every object packet resized to <len> bytes
+//!   W <n> <k>                            k copies of the follow-up's own FDT packet with its last n bytes damaged; no cleanup() before the follow-up
 //!   X <cp> <keep> ; V .. ; O ..          after every object packet a copy with Codepoint <cp>, cut <keep> bytes after the header
 //!   Z <seed> <nmut> ; V .. ; O ..        seeded field-aware mutation sequence applied to the session
 //!   G <hex> <hex> ...                    explicit datagram sequence (replays, minimised failures)
@@ -165,7 +166,8 @@ fn build_followup() -> FollowUp {
     scfg.toi_initial_value = Some(FU_TOI0);
     scfg.fdt_start_id = FU_FDT0;
     scfg.fdt_carousel_mode = flute::sender::CarouselRepeatMode::DelayBetweenTransfers(Duration::from_secs(3600));
-    let session_oti = Oti::new_no_code(1400, 64);
+    // one FDT packet (the instance is about 2 kB): a damaged copy of it is REJECTED, not merged (W lines)
+    let session_oti = Oti::new_no_code(4096, 64);
     let ep = UDPEndpoint::new(None, "224.0.0.1".to_string(), 1234);
     let mut sender = Sender::new(ep, 1, &session_oti, &scfg);
     let mut objs = Vec::new();
@@ -258,6 +260,11 @@ fn res_char(r: Option<flute::error::Result<()>>) -> char {
     }
 }
 
+thread_local! {
+    /// W lines: the follow-up session is pushed right after the garbage, without the cleanup() in between
+    static NO_CLEANUP: std::cell::Cell<bool> = std::cell::Cell::new(false);
+}
+
 fn run_target(multi: bool, garbage: &[&[u8]]) -> TargetOut {
     let ep = UDPEndpoint::new(None, "224.0.0.1".to_string(), 1234);
     let col = Rc::new(RefCell::new(Col::default()));
@@ -286,7 +293,13 @@ fn run_target(multi: bool, garbage: &[&[u8]]) -> TargetOut {
         }
     }
     let t0 = std::time::Instant::now();
-    let cleanup = if catch(std::panic::AssertUnwindSafe(|| t.cleanup(now))).is_some() { 'O' } else { 'P' };
+    let cleanup = if NO_CLEANUP.with(|c| c.get()) {
+        'O'
+    } else if catch(std::panic::AssertUnwindSafe(|| t.cleanup(now))).is_some() {
+        'O'
+    } else {
+        'P'
+    };
     max_us = max_us.max(t0.elapsed().as_micros());
     let stored: isize = col.borrow().objs.values().map(|o| o.0.capacity() as isize + 64).sum();
     let heap = crate::live_bytes() - h0 - stored;
@@ -351,16 +364,21 @@ fn run_sequence(garbage: &[&[u8]]) -> String {
     let mut a = String::new();
     let mut s = String::new();
     let mut i = String::new();
-    let mut touched = false;
+    let mut touch: Vec<bool> = Vec::new();
     for d in garbage {
         let (x, y, z, t) = parse_obs(d);
         a.push(x);
         s.push(y);
         i.push(z);
-        touched |= t;
+        touch.push(t);
     }
     let r = run_target(false, garbage);
     let m = run_target(true, garbage);
+    // a datagram on the follow-up's own TOIs / FDT ids may legitimately disturb it only if a target
+    // ACCEPTED it (spoofing); a rejected one must leave the receiver usable
+    let rr: Vec<char> = r.res.chars().collect();
+    let mr: Vec<char> = m.res.chars().collect();
+    let touched = touch.iter().enumerate().any(|(k, t)| *t && (rr.get(k) == Some(&'O') || mr.get(k) == Some(&'O')));
     let bytes: usize = garbage.iter().map(|d| d.len()).sum();
     format!(
         "prof={} n={} bytes={} touched={} A={} S={} I={} R={} Rx={}{} Rh={} Rt={} Rf={} Rd={} M={} Mx={}{} Mh={} Mt={} Mf={} Md={} W={}",
@@ -1112,6 +1130,18 @@ fn expand(input: &str) -> Option<(Vec<Vec<u8>>, Vec<bool>, Vec<String>)> {
             }
             Some((v, same, log))
         }
+        "W" => {
+            // the follow-up's own FDT packet with its last <n> bytes overwritten (the XML no longer parses:
+            // Receiver::push answers Err), <k> copies; the follow-up is pushed without a cleanup() in between
+            let n: usize = head.get(1)?.parse().ok()?;
+            let k: usize = head.get(2)?.parse().ok()?;
+            let mut d = FOLLOWUP.with(|f| f.pkts.iter().find(|p| p.len() > 3 && matches!(catch(|| flute::core::alc::parse_alc_pkt(p)), Some(Ok(ref q)) if q.lct.toi == 0)).cloned())?;
+            let len = d.len();
+            for b in d[len - n.min(len)..].iter_mut() {
+                *b = b'<';
+            }
+            Some((vec![d; k.max(1)], vec![false; k.max(1)], log))
+        }
         "X" => {
             // codec cross-over: after every object packet, a copy of it whose Codepoint is replaced by <cp>
             // and which is cut <keep> bytes after the LCT header (the object's OTI is known by then, so the
@@ -1218,6 +1248,7 @@ pub fn eval(input: &str) -> String {
     if secs[0][0] == "Y" && secs[0].get(3).copied() == Some("*") {
         return eval_y_all(&secs);
     }
+    NO_CLEANUP.with(|c| c.set(secs[0][0] == "W"));
     let (seq, same, log) = match catch(|| expand(input)) {
         Some(Some(x)) => x,
         Some(None) => return if ["Y", "Z", "S", "X"].contains(&secs[0][0]) { "NOSESSION".into() } else { "BAD".into() },
@@ -1225,7 +1256,7 @@ pub fn eval(input: &str) -> String {
     };
     let refs: Vec<&[u8]> = seq.iter().map(|d| d.as_slice()).collect();
     let mut out = run_sequence(&refs);
-    if ["Y", "Z", "S", "X"].contains(&secs[0][0]) {
+    if ["Y", "Z", "S", "X", "W"].contains(&secs[0][0]) {
         let ds: Vec<String> = seq.iter().zip(same.iter()).map(|(d, s)| if *s { "=".to_string() } else { hex(d) }).collect();
         out.push_str(&format!(" D={}", if ds.is_empty() { "-".to_string() } else { ds.join(",") }));
         if !log.is_empty() {
@@ -1365,6 +1396,14 @@ fn gen(args: &Args, emit: &mut dyn FnMut(String)) {
                 if mine(&mut idx) {
                     emit(format!("X {} {} ; {}", cp, keep, spec));
                 }
+            }
+        }
+    }
+    // 2d. a damaged copy of the follow-up's own FDT instance, no cleanup before the follow-up (D41)
+    for n in [1usize, 8, 30, 100] {
+        for k in [1usize, 3] {
+            if mine(&mut idx) {
+                emit(format!("W {} {}", n, k));
             }
         }
     }
